@@ -12,11 +12,12 @@ CONSTANTS MaxSpine,     \* number of nested container levels (0 = scalar root)
 
 LevelClasses == {"dict", "odict", "idict", "list", "tuple", "obj"}
 Leaves == {VNone, VInt(7), VStr("s"), VStr(""), VRef(-1), VRef(-2)}   \* -1: empty dict, -2: empty list
-SideOpts == {"absent", "none", "shared", "empty"}
+SideOpts == {"absent", "none", "shared", "empty", "dotted"}     \* dotted: the second entry's key is the text "a.b"
 
 \* keys of the two entries of a level
 Key1(cls) == IF cls = "idict" THEN VInt(0) ELSE VStr("a")
 Key2(cls) == IF cls = "idict" THEN VInt(1) ELSE VStr("b")
+Key2S(cls, side) == IF side = "dotted" /\ cls \in {"dict", "odict", "obj"} THEN VStr("a.b") ELSE Key2(cls)
 PyCls(cls) == IF cls = "idict" THEN "dict" ELSE cls
 
 MkHeap(levels, leaf, side) ==
@@ -24,12 +25,12 @@ MkHeap(levels, leaf, side) ==
       fix(v) == IF IsRef(v) /\ v.a < 0 THEN VRef(n - v.a) ELSE v     \* -1 -> n+1, -2 -> n+2
       first(i) == IF i < n THEN VRef(i + 1) ELSE fix(leaf)
       second(i) == CASE side = "none" -> VNone [] side = "shared" -> first(i) [] side = "empty" -> VRef(n + 1)
-                     [] OTHER -> VNone
+                     [] side = "dotted" -> VInt(9) [] OTHER -> VNone
       cell(i) == LET c == levels[i] IN
                  IF c \in {"list", "tuple"}
                  THEN Cell(c, IF side = "absent" THEN <<first(i)>> ELSE <<first(i), second(i)>>)
                  ELSE Cell(PyCls(c), IF side = "absent" THEN << <<Key1(c), first(i)>> >>
-                                     ELSE << <<Key1(c), first(i)>>, <<Key2(c), second(i)>> >>)
+                                     ELSE << <<Key1(c), first(i)>>, <<Key2S(c, side), second(i)>> >>)
   IN [i \in 1..(n + 2) |-> IF i <= n THEN cell(i) ELSE IF i = n + 1 THEN Cell("dict", <<>>) ELSE Cell("list", <<>>)]
 
 Root(levels, leaf) == LET n == Len(levels) IN
